@@ -431,3 +431,35 @@ func VerifConnAcceptConsts() [][2]any {
 		{"caHandshakeTimeoutFactor", int64((&Config{HandshakeIdleTimeout: time.Second}).handshakeTimeout() / time.Second)},
 	}
 }
+
+// ---- hooks for whole-connection simulations (simhandshake) ----
+
+// VerifHookClientConns makes every client connection created from now on (plain and spec-driven,
+// including the ones re-created after a version negotiation) visible to cb, by wrapping the
+// constructor variables the package already exposes for mocking. The returned function restores them.
+// Not safe for concurrent use with another hook; simulations run one at a time.
+func VerifHookClientConns(cb func(*Conn)) (restore func()) {
+	origPlain, origU := newClientConnection, newUClientConnection
+	newClientConnection = func(ctx context.Context, conn sendConn, runner connRunner, destConnID, srcConnID protocol.ConnectionID,
+		g ConnectionIDGenerator, sr *statelessResetter, conf *Config, tlsConf *tls.Config, ipn protocol.PacketNumber,
+		enable0RTT, hasNegotiatedVersion bool, qt qlogwriter.Trace, logger utils.Logger, v protocol.Version) *wrappedConn {
+		wc := origPlain(ctx, conn, runner, destConnID, srcConnID, g, sr, conf, tlsConf, ipn, enable0RTT, hasNegotiatedVersion, qt, logger, v)
+		cb(wc.Conn)
+		return wc
+	}
+	newUClientConnection = func(ctx context.Context, conn sendConn, runner connRunner, destConnID, srcConnID protocol.ConnectionID,
+		g ConnectionIDGenerator, sr *statelessResetter, conf *Config, tlsConf *tls.Config, ipn protocol.PacketNumber,
+		enable0RTT, hasNegotiatedVersion bool, qt qlogwriter.Trace, logger utils.Logger, v protocol.Version, spec *QUICSpec) *wrappedConn {
+		wc := origU(ctx, conn, runner, destConnID, srcConnID, g, sr, conf, tlsConf, ipn, enable0RTT, hasNegotiatedVersion, qt, logger, v, spec)
+		cb(wc.Conn)
+		return wc
+	}
+	return func() { newClientConnection, newUClientConnection = origPlain, origU }
+}
+
+// VerifTransportHandlers is the number of entries in a Transport's connection-ID routing map.
+func VerifTransportHandlers(t *Transport) int {
+	t.mutex.Lock()
+	defer t.mutex.Unlock()
+	return len(t.handlers)
+}
